@@ -82,11 +82,30 @@ func findDeadlineOwners(p *Prog) []*dlOwner {
 }
 
 // isTimeoutValue: v is an error value whose Timeout() is true.
-func isTimeoutValue(p *Prog, v ssa.Value, depth int) bool {
-	if depth > 6 || v == nil {
+func isTimeoutValue(p *Prog, v ssa.Value, depth int) bool { return isTimeoutValueR(p, v, depth, nil) }
+
+// isTimeoutValueR: res resolves helper parameters along the path being examined (nil: every call site must agree).
+func isTimeoutValueR(p *Prog, v ssa.Value, depth int, res func(ssa.Value) ssa.Value) bool {
+	if depth > 8 || v == nil {
 		return false
 	}
+	if res != nil {
+		if r := res(v); r != v {
+			return isTimeoutValueR(p, r, depth+1, res)
+		}
+	}
 	switch x := v.(type) {
+	case *ssa.Parameter:
+		all := originsAll(x)
+		if len(all) == 0 {
+			return false
+		}
+		for _, o := range all {
+			if o == ssa.Value(x) || !isTimeoutValueR(p, o, depth+1, res) {
+				return false
+			}
+		}
+		return true
 	case *ssa.UnOp:
 		if x.Op == token.MUL {
 			if g, ok := x.X.(*ssa.Global); ok {
@@ -95,12 +114,12 @@ func isTimeoutValue(p *Prog, v ssa.Value, depth int) bool {
 			}
 		}
 	case *ssa.MakeInterface:
-		return isTimeoutValue(p, x.X, depth+1)
+		return isTimeoutValueR(p, x.X, depth+1, res)
 	case *ssa.ChangeInterface:
-		return isTimeoutValue(p, x.X, depth+1)
+		return isTimeoutValueR(p, x.X, depth+1, res)
 	case *ssa.Phi:
 		for _, e := range x.Edges {
-			if !isTimeoutValue(p, e, depth+1) {
+			if !isTimeoutValueR(p, e, depth+1, res) {
 				return false
 			}
 		}
@@ -124,7 +143,7 @@ func isTimeoutValue(p *Prog, v ssa.Value, depth int) bool {
 			return val
 		}
 		if tn == "net.OpError" {
-			return isTimeoutValue(p, stored("Err"), depth+1)
+			return isTimeoutValueR(p, stored("Err"), depth+1, res)
 		}
 		named := namedOf(et)
 		if named == nil || named.Obj().Pkg() == nil || !strings.HasPrefix(named.Obj().Pkg().Path(), modPath) {
@@ -154,7 +173,7 @@ func isTimeoutValue(p *Prog, v ssa.Value, depth int) bool {
 				return false
 			}
 			for _, rv := range vals {
-				if !isTimeoutValue(p, rv, depth+1) {
+				if !isTimeoutValueR(p, rv, depth+1, res) {
 					return false
 				}
 			}
@@ -377,7 +396,7 @@ func runC10(c *Ctx) {
 				isT := false
 				if e != nil {
 					for _, v := range unspill(e) {
-						if isTimeoutValue(p, pth.value(v), 0) {
+						if isTimeoutValueR(p, pth.value(v), 0, pth.value) {
 							isT = true
 						}
 					}
